@@ -169,6 +169,9 @@ impl Group for DestGroup {
             let mut w2 = (d2.len() as u16).to_be_bytes().to_vec(); w2.extend_from_slice(&d2);
             v.push(Case { lines: vec![format!("dest udprelay 000401020304 {} ~{ms} {} {}", hex_compact(&w[..k]), hex_compact(&w[k..]), hex_compact(&w2))] });
         }
+        // the opposite direction: a long datagram followed by shorter ones (a stale receive buffer must not show)
+        v.push(Case { lines: vec![format!("dest udpback {} 0102 03 {}", hex_compact(&vec![0xabu8; 1472]), hex_compact(&vec![0x11u8; 65507]))] });
+        v.push(Case { lines: vec!["dest udpback 01 0203 040506 07".to_string()] });
         // ... and with a pause at every cut
         for k in 1..w.len() { v.push(Case { lines: vec![format!("dest dec 1 {} ~2500 {}", hex(&w[..k]), hex(&w[k..]))] }); }
         // regression witness of the cache defect (DESIGN §6 D6): same host, other port
@@ -226,6 +229,13 @@ impl Group for DestGroup {
             match rng.below(8) { 0 => { w.extend_from_slice(&[0, 0]); w.extend(rng.bytes(3)); } 1 => { let n = rng.below(w.len() as u64) as usize; w.truncate(n); } _ => {} }
             let side = if rng.chance(1, 2) { "c" } else { "s" };
             return Case { lines: vec![format!("dest dgdec {} {} {}", side, open, chunks_str(&cut(rng, &w)))] };
+        }
+        if k < 86 {
+            // the opposite direction of the relay: 1-5 datagrams from the target, long ones before short ones
+            let nd = rng.range(1, 5);
+            let mut toks = vec![];
+            for _ in 0..nd { let n = if rng.chance(1, 3) { *rng.pick(&[1usize, 2, 255, 256, 1472, 9000, 65507]) } else { rng.range(1, 60) as usize }; let d = if n > 300 { let mut d = vec![rng.next() as u8; n]; d[n - 1] ^= 0x3c; d } else { rng.bytes(n) }; toks.push(hex_compact(&d)); }
+            return Case { lines: vec![format!("dest udpback {}", toks.join(" "))] };
         }
         if k < 88 {
             // the relay loop on 1-4 datagrams cut at random, pauses between some pieces
@@ -463,6 +473,40 @@ async fn exec_line(toks: &[&str], out: &mut Outcome) -> String {
             while off + 2 <= all.len() { let n = u16::from_be_bytes([all[off], all[off + 1]]) as usize; if n == 0 || off + 2 + n > all.len() { break; } want.push(all[off + 2..off + 2 + n].to_vec()); off += 2 + n; }
             if got != want {
                 out.oracle.push(OracleFail { sig: "datagram_boundaries_changed/stream_to_udp".into(), detail: format!("{} datagrams encoded in the stream (sizes {:?}), the target received {} (sizes {:?})", want.len(), want.iter().map(|d| d.len()).collect::<Vec<_>>(), got.len(), got.iter().map(|d| d.len()).collect::<Vec<_>>()) });
+            }
+            format!("[{}]", got.iter().map(|d| hex_compact(d)).collect::<Vec<_>>().join(","))
+        }
+        ["dest", "udpback", dgrams @ ..] => {
+            // the opposite direction of the server's relay (udp_to_stream inside handle_udp_over_tcp): a loopback UDP target
+            // answers with the given datagrams, one after the other; what the loop submits to the tunnel stream is observed
+            // on the stream's outbound channel
+            let Some(ds) = dgrams.iter().map(|t| unhex(t)).collect::<Option<Vec<Vec<u8>>>>() else { return "bad-op".into() };
+            let Ok(target) = tokio::net::UdpSocket::bind("127.0.0.1:0").await else { return "bad-op".into() };
+            let port = target.local_addr().map(|a| a.port()).unwrap_or(0);
+            let (tx, rx) = mpsc::unbounded_channel::<Bytes>();
+            let (wtx, mut wrx) = mpsc::unbounded_channel::<(u32, Bytes)>();
+            let reader = StreamReader::new(1, rx);
+            let (stream, _srx) = Stream::new(1, reader, wtx);
+            let stream = Arc::new(stream);
+            let relay = tokio::spawn(anytls_rs::server::udp_proxy::handle_udp_over_tcp(stream.clone()));
+            let mut req = vec![1u8, 1, 127, 0, 0, 1];
+            req.extend_from_slice(&port.to_be_bytes());
+            req.extend_from_slice(&[0, 1, 0x55]); // a probe datagram, so that the target learns the relay's address
+            let _ = tx.send(Bytes::from(req));
+            let mut buf = vec![0u8; 70000];
+            let Ok(Ok((_, relay_addr))) = tokio::time::timeout(std::time::Duration::from_millis(2000), target.recv_from(&mut buf)).await else { relay.abort(); return "no-probe".into() };
+            let mut got: Vec<Vec<u8>> = vec![];
+            for d in &ds {
+                let _ = target.send_to(d, relay_addr).await;
+                // lock-step: wait for the chunk(s) of this datagram before the next one is sent
+                if let Ok(Some((_, c))) = tokio::time::timeout(std::time::Duration::from_millis(500), wrx.recv()).await { got.push(c.to_vec()); }
+                while let Ok(Some((_, c))) = tokio::time::timeout(std::time::Duration::from_millis(3), wrx.recv()).await { got.push(c.to_vec()); }
+            }
+            relay.abort();
+            // O (C15): one chunk per datagram, each the datagram's exact length-prefixed image
+            let want: Vec<Vec<u8>> = ds.iter().map(|d| { let mut w = (d.len() as u16).to_be_bytes().to_vec(); w.extend_from_slice(d); w }).collect();
+            if got != want {
+                out.oracle.push(OracleFail { sig: "datagram_boundaries_changed/udp_to_stream".into(), detail: format!("the target answered with datagrams of sizes {:?}; the relay submitted chunks of sizes {:?} to the stream", ds.iter().map(|d| d.len()).collect::<Vec<_>>(), got.iter().map(|d| d.len()).collect::<Vec<_>>()) });
             }
             format!("[{}]", got.iter().map(|d| hex_compact(d)).collect::<Vec<_>>().join(","))
         }
